@@ -1,5 +1,3 @@
-SPECIFICATION TSpec
-INVARIANT InvCrashSafe
-INVARIANT InvDurable
+SPECIFICATION TSpecCrash
 POSTCONDITION Accepted
 CHECK_DEADLOCK FALSE
